@@ -175,6 +175,8 @@ func (m *Machine) ndStub(name string, args []Value) Value {
 			pub.elems[i] = p
 		}
 		return Tuple{Slice{priv, 0, 64, 64}, Slice{pub, 0, 32, 32}}
+	case "NowUnix":
+		return m.nowBase()
 	case "AssumeHashInjective":
 		m.hashInjective = true
 		for i := 0; i < len(m.hashLog); i++ {
